@@ -1,4 +1,4 @@
-\* Agent: mode=local UpgradeSend=drop UpgradeRecheck=FALSE; 3 clients x 1 calls, channel capacity 2
+\* WRONG variant: remote mode with back-pressure everywhere (blocking dispatcher send + upgrader blocking on its semaphore): a stalled master wedges the agent
 SPECIFICATION Spec
 CONSTANTS
     Clients = {"c1", "c2", "c3"}
@@ -9,12 +9,12 @@ CONSTANTS
     PolicyOK = {"p1", "p2"}
     Cap = 2
     NCap = 2
-    UCap = 2
+    UCap = 1
     SemCap = 1
-    Mode = "local"
-    UpgradeSend = "drop"
-    UpgraderSem = "drop"
-    UpgradeRecheck = FALSE
+    Mode = "remote"
+    UpgradeSend = "blocking"
+    UpgraderSem = "block"
+    UpgradeRecheck = TRUE
     MaxCalls = 1
     Kinds = {"auth", "update", "remove"}
     InitFiles <- MCInit1
